@@ -288,8 +288,8 @@ Definition check_case (c : tcase) : sexp :=
                   | _, _ => false
                   end then v_mismatch "root-entries" []
           else v_ok (classes c)
-      | Stuck => v_mismatch "model-stuck" []
-      | OutOfFuel => v_mismatch "model-out-of-fuel" []
+      | Stuck _ => v_mismatch "model-stuck" []
+      | OutOfFuel _ => v_mismatch "model-out-of-fuel" []
       end
   end.
 
